@@ -17,36 +17,61 @@ EXTENDS Naturals, Integers, Sequences, FiniteSets, TLC, LinAdjustOps
 
 CONSTANTS K,          \* number of summaries (regressors), 1 or 2
           NP,         \* number of parameters
-          DataSet,    \* set of records [S, obs, TH]: TH = sequence of NP parameter columns
-          Maps,       \* K x K integer matrices of the affine re-expressions
-          Shifts,     \* their translation vectors
+          MinN, MaxN, \* numbers of rows
+          RowTypes,   \* set of rows <<s_1..s_K, theta_1..theta_NP>> (values or non-finite markers)
+          ObsSet,     \* set of observed summary vectors
+          Affs,       \* affine re-expressions <<M, v>>: K x K integer matrix, translation vector
           Grid,       \* candidate slopes (integer K-vectors) for the least-squares comparison
           Centred     \* TRUE = the code; FALSE = negative control (regression without intercept)
 
-VARIABLES data, pc, finite, models, out
-vars == <<data, pc, finite, models, out>>
+VARIABLES rows,     \* the sample being assembled, one row <<summaries, parameters>> at a time
+          data,     \* the call's inputs [S, obs, TH] once fixed (TH = NP parameter columns)
+          pc, finite, models, out
+vars == <<rows, data, pc, finite, models, out>>
 
-Init == /\ data \in DataSet
-        /\ pc = "new" /\ finite = <<>> /\ models = <<>> /\ out = <<>>
+NoData == [S |-> <<>>, obs |-> <<>>, TH |-> <<>>]
+Init == /\ rows = <<>> /\ data = NoData
+        /\ pc = "build" /\ finite = <<>> /\ models = <<>> /\ out = <<>>
+
+\* The adjustment is equivariant under a permutation of the rows, so samples are enumerated as
+\* multisets of rows: sequences that are non-decreasing in the lexicographic order.
+RECURSIVE LexLeq(_, _)
+LexLeq(a, b) == IF a = <<>> THEN TRUE
+                ELSE IF Head(a) < Head(b) THEN TRUE
+                ELSE IF Head(a) > Head(b) THEN FALSE
+                ELSE LexLeq(Tail(a), Tail(b))
+
+AddRow(r) == /\ pc = "build" /\ Len(rows) < MaxN
+             /\ IF rows = <<>> THEN TRUE ELSE LexLeq(rows[Len(rows)], r)
+             /\ rows' = Append(rows, r)
+             /\ UNCHANGED <<data, pc, finite, models, out>>
+
+\* the call: sample (rows) and model (observed summaries) are handed to adjust_posterior
+Call(o) == /\ pc = "build" /\ Len(rows) >= MinN
+           /\ data' = [S |-> [i \in 1..Len(rows) |-> SubSeq(rows[i], 1, K)],
+                       obs |-> o,
+                       TH |-> [j \in 1..NP |-> [i \in 1..Len(rows) |-> rows[i][K + j]]]]
+           /\ pc' = "new"
+           /\ UNCHANGED <<rows, finite, models, out>>
 
 Fit == /\ pc = "new"
        /\ \A j \in 1..NP : Mask(data.S, data.TH[j]) # {}
        /\ finite' = [j \in 1..NP |-> Mask(data.S, data.TH[j])]
        /\ models' = [j \in 1..NP |-> Slope(data.S, data.obs, data.TH[j], finite'[j], Centred)]
        /\ pc' = "fitted"
-       /\ UNCHANGED <<data, out>>
+       /\ UNCHANGED <<rows, data, out>>
 
 Raise == /\ pc = "new"
          /\ \E j \in 1..NP : Mask(data.S, data.TH[j]) = {}
          /\ pc' = "raised"
-         /\ UNCHANGED <<data, finite, models, out>>
+         /\ UNCHANGED <<rows, data, finite, models, out>>
 
 Adjust == /\ pc = "fitted"
           /\ out' = [j \in 1..NP |-> AdjustWith(data.S, data.obs, data.TH[j], finite[j], models[j])]
           /\ pc' = "done"
-          /\ UNCHANGED <<data, finite, models>>
+          /\ UNCHANGED <<rows, data, finite, models>>
 
-Next == Fit \/ Raise \/ Adjust
+Next == (\E r \in RowTypes : AddRow(r)) \/ (\E o \in ObsSet : Call(o)) \/ Fit \/ Raise \/ Adjust
 Spec == Init /\ [][Next]_vars
 
 \* ---- the property (C17, regression part) ----------------------------------------
@@ -101,11 +126,11 @@ FixedPointRow ==
 \*     slope is unique; otherwise the statement's "the slope" does not determine a result)
 AffineInvariant ==
   Done => \A j \in Params : models[j].unique =>
-    \A M \in Maps : \A v \in Shifts :
-      SeqRatEq(out[j], Adjusted(MapRows(M, v, data.S), MapVec(M, v, data.obs), data.TH[j]))
+    \A f \in Affs :
+      SeqRatEq(out[j], Adjusted(MapRows(f[1], f[2], data.S), MapVec(f[1], f[2], data.obs), data.TH[j]))
 \* the rank-deficient cases keep (c); there the code's minimum-norm choice is NOT affine invariant
 \* (stated so that TLC confirms it: must be refuted)
 AffineInvariantAlsoDegenerate ==
-  Done => \A j \in Params : \A M \in Maps : \A v \in Shifts :
-      SeqRatEq(out[j], Adjusted(MapRows(M, v, data.S), MapVec(M, v, data.obs), data.TH[j]))
+  Done => \A j \in Params : \A f \in Affs :
+      SeqRatEq(out[j], Adjusted(MapRows(f[1], f[2], data.S), MapVec(f[1], f[2], data.obs), data.TH[j]))
 =============================================================================
